@@ -127,6 +127,7 @@ public:
         rb.data_ = nullptr;
         rb.begin_ = rb.end_ = 0;
         rb.capacity_ = 0;
+        rb.max_size_ = 0, rb.mask_ = 0;
     }
 
     //! move-assignment operator: default
@@ -147,6 +148,7 @@ public:
         rb.data_ = nullptr;
         rb.begin_ = rb.end_ = 0;
         rb.capacity_ = 0;
+        rb.max_size_ = 0, rb.mask_ = 0;
         return *this;
     }
 
